@@ -98,6 +98,7 @@ def run(rep, tier):
             memsafe.unguarded_write_rule(rep, fn)
             memsafe.tail_fill_rule(rep, fn)
             memsafe.stale_length_rule(rep, fn)
+            memsafe.stale_remaining_rule(rep, fn)
             ban_rule(rep, fn)
         if lab.endswith("bt_encode.c"):
             recursion_rule(rep, u)
